@@ -9,6 +9,7 @@ import Amgcl.Model.Kernels
 * `adjust1/2`    : the `adjust_p` variants of the matrix handed to the pressure solver      (:441-497)
 * `gather/scatter` matrices `x2u, x2p, u2x, p2x`                                            (:516-584)
 * `State.spmv`   : the matrix-free Schur complement (`spmv`, :256-281)
+* `State.residual`: `backend::residual` on the object (`residual_impl`, :623-631)
 * `State.apply`  : `apply` for `type` 1 and 2 (:215-254)
 
 The inner solvers are FUNCTION PARAMETERS: `U : Vec K → Vec K` is `(*U)(rhs, u)` started from `u = 0` (the code
@@ -256,6 +257,12 @@ def State.apply (S : State K) (U Ps : Vec K → Vec K) (rhs : Vec K) : Option (V
   | some (u, p) =>
     let x := Amgcl.spmv 1 S.u2x u 0 (vclear S.n)
     some (Amgcl.spmv 1 S.p2x p 1 x)
+
+/-- `backend::residual(rhs, S, x, r)` on the object (`residual_impl`, :623-631): `copy(rhs, r); S.spmv(-1, x, 1, r)` —
+what a pressure solver that re-evaluates the true residual (GMRES family after every cycle, any solver started from
+a non-zero guess) computes -/
+def State.residual (S : State K) (U : Vec K → Vec K) (rhs x : Vec K) : Vec K :=
+  S.spmv U (-1) x 1 (vcopy rhs)
 
 /-- the matrix-free operator applied to the unit vectors: column `j` of the dense `np × np` matrix -/
 def State.sCol (S : State K) (U : Vec K → Vec K) (j : Nat) : Vec K :=
